@@ -20,7 +20,7 @@
 (*   4. detaches itself, 5. mutates itself in place.                        *)
 (* `x += l` / `x *= n` then re-assign the (detached, mutated) old list.     *)
 (*                                                                         *)
-(* Flags select the pinned or the repaired behaviour of three defects.      *)
+(* Flags select the pinned or the repaired behaviour of four defects.       *)
 (***************************************************************************)
 EXTENDS EFPyList
 
@@ -28,7 +28,8 @@ CONSTANTS Elems,        \* the elements that may be put in the list
           MaxLen,       \* bound on the abstract list (state constraint)
           FixNoOp,      \* a no-op change of a throw-away copy is not dropped by ModelingUpdate
           FixRemove,    \* remove() detaches the wrapper, not the raw element
-          FixImul       \* `*= n` extends with the initial content, clears for n <= 0
+          FixImul,      \* `*= n` extends with the initial content, clears for n <= 0
+          FixRefused    \* a mutation refused by ModelingUpdate detaches the throw-away copy it had built
 
 VARIABLES abs,          \* abstract Python list (Seq(Elems))
           cur,          \* id of the list object that is the attribute's value
@@ -117,6 +118,18 @@ Mutate(op) ==
            IN  Install(V[1], V[2], "ok", r.val)
       ELSE Install(W4, U[2], IF removeRaises THEN "AttributeError-after-removal" ELSE "ok", r.val)
 
+(* a mutation that would add an element the update refuses (an object of another system): steps 1-2 are done, the update   *)
+(* raises while parsing its change list, nothing is installed; the copy built in step 2 must not stay attached            *)
+Adds(op) == op.name \in {"append", "insert", "extend", "iadd", "setitem"}
+Refused(op) ==
+    LET self == cur
+        s == Targets(self)
+        r == PyOp(s, op)
+    IN  /\ Adds(op) /\ lat[self] /\ r.ok
+        /\ LET W1 == WithNewList(World, s, TRUE)
+               W2 == IF FixRefused THEN Detach(W1, W1.id) ELSE W1
+           IN  Install(W2, cur, "PermissionError", abs)
+
 (* obj.attr = [..] : plain assignment of a new list *)
 Assign(l) ==
     LET U == UpdateList(World, cur, cur, l) IN Install(U[1], U[2], "ok", l)
@@ -141,7 +154,7 @@ Init ==
       LET W == WithNewList([vals |-> <<>>, lat |-> <<>>, wt |-> <<>>, wa |-> <<>>], s, TRUE)
       IN  vals = W.vals /\ lat = W.lat /\ wt = W.wt /\ wa = W.wa /\ cur = W.id /\ abs = s /\ out = "init"
 
-Next == (\E op \in Ops : Mutate(op)) \/ (\E l \in InitLists : Assign(l))
+Next == (\E op \in Ops : Mutate(op)) \/ (\E op \in Ops : Refused(op)) \/ (\E l \in InitLists : Assign(l))
 Spec == Init /\ [][Next]_vars
 
 Bound == Len(abs) <= MaxLen
